@@ -5,7 +5,7 @@ absent.
 spec : DiskDefs (ApplyOp for drops, DropAllowed / DropStates), Disk.tla (B_D* / B_P* programs,
        DropAtomicity, blocked writers)
 MC   : exhaustive TLC: crash after every step of DropAll and DropPrefix with commits, flush and
-       compaction around them (intended order DropTreeFirst); code-as-is order must give TLC's
+       compaction around them (intended order DropFlushFirst); code-as-is order must give TLC's
        DropAtomicity counterexample; DropStates = {rv : DropAllowed} checked on the generator
 bind : (E-CRASH) workloads whose n-th operation is a drop (data spread over memtable / L0 / L1 /
        value log by the preceding operations): every hook event of the run -- in particular every
@@ -23,14 +23,18 @@ KINDS = ("kill", "kill-trunc0")
 
 
 def body(c):
+    if D.replay_recorded(c):
+        return
     q = c.quick
     # 1. design level: both drop programs, crash after every step
     D.disk_mc(c, "drops:2commits+rotate+compact+dropAll+dropPrefix", MaxCommits=2, MaxDropAll=1, MaxDropPrefix=1,
               timeout=600)
     if not q:
-        D.disk_mc(c, "drops:3commits+dels+dropAll+dropPrefix+2crashes", MaxCommits=3, MaxDropAll=1, MaxDropPrefix=1,
-                  Dels="{FALSE, TRUE}", MaxCrash=2, keysets="MCKeySets2", timeout=1500)
-    D.disk_mc(c, "code-as-is:dropAll-memtables-first", expect_violation="DropAtomicity", DropTreeFirst="FALSE",
+        D.disk_mc(c, "dropAll+gc:2commits+rotate+compact", MaxCommits=2, MaxDropAll=1, MaxGC=1, timeout=900)
+    if not q:
+        D.disk_mc(c, "drops:2commits+dels+dropAll+dropPrefix+2crashes", MaxCommits=2, MaxDropAll=1, MaxDropPrefix=1,
+                  Dels="{FALSE, TRUE}", MaxCrash=2, timeout=1500)
+    D.disk_mc(c, "code-as-is:dropAll-memtables-first", expect_violation="DropAtomicity", DropFlushFirst="FALSE",
               MaxDropAll=1, timeout=300)
     # the constructive DropStates the generator emits equals the C29 predicate (exhaustive, short)
     D.generate(c, "dropstates-check", 0, c.seed, workers=4, exhaustive=True, invariants=("DropStatesChecked",),
@@ -38,7 +42,7 @@ def body(c):
                MaxEnv=1)
     # 2. workloads with a drop at a fixed position
     cases = []
-    per = 3 if q else 25
+    per = 2 if q else 10
     for pos in ((5, 8) if q else (3, 5, 7, 9)):
         for drops in ('{"dropAll"}', '{"dropPrefix"}'):
             cases += D.generate(c, "drop@%d:%s" % (pos, drops), per, c.seed + pos, workers=2, Drops=drops, DropAt=pos,
@@ -51,7 +55,7 @@ def body(c):
     indrop = sum(1 for r in results for cl in r["classes"] if "|drop" in cl)
     c.cov["crash_point_classes_inside_drops"] = indrop
     # 3. concurrent writers vs drops (gates): race cases from the generator, every release point
-    races = D.generate(c, "races", 6 if q else 40, c.seed, workers=2, Races='{"raceAll", "racePrefix"}', Drops="{}",
+    races = D.generate(c, "races", 4 if q else 24, c.seed, workers=2, Races='{"raceAll", "racePrefix"}', Drops="{}",
                        HistLen=7, EnvOps='{"rotate", "flush", "compactL0"}')
     outs = D.drop_writers(c, races, "drop-vs-writer")
     nsched = len(outs)
